@@ -796,12 +796,25 @@ def gen_value_src(rng, t, sch: Schema, depth: int, wire: bool = False) -> str:
             keep = [(fn, ft) for fn, ft in c["fields"] if fn not in c["omit"]]
         else:
             keep = [(fn, ft) for fn, ft in c["fields"] if fn not in dfl or rng.random() < 0.5]
+        srcs = [gen_value_src(rng, ft, sch, depth - 1, wire) for fn, ft in keep]
+        # input aliasing: now and then the very same container object sits in two fields of one instance
+        for j in range(1, len(keep)):
+            for i in range(j):
+                ti, tj = strip_wrappers(keep[i][1]), strip_wrappers(keep[j][1])
+                if (ti == tj and ti[0] in ("seq", "map") and rng.random() < 0.5
+                        and not srcs[i].startswith("(_a") and not srcs[j].startswith("_a")
+                        and srcs[i] not in ("None",) and keep[i][1][0] != "opt"):
+                    ALIAS_N[0] += 1
+                    srcs[j] = f"_a{ALIAS_N[0]}"
+                    srcs[i] = f"(_a{ALIAS_N[0]} := {srcs[i]})"
+                    break
         if wire:
-            return "{" + ", ".join(f"{fn!r}: " + gen_value_src(rng, ft, sch, depth - 1, True) for fn, ft in keep) + "}"
-        return c["name"] + "(" + ", ".join(f"{fn}=" + gen_value_src(rng, ft, sch, depth - 1, False) for fn, ft in keep) + ")"
+            return "{" + ", ".join(f"{fn!r}: {src}" for (fn, ft), src in zip(keep, srcs)) + "}"
+        return c["name"] + "(" + ", ".join(f"{fn}={src}" for (fn, ft), src in zip(keep, srcs)) + ")"
     raise ValueError(t)
 
 
+ALIAS_N = [0]
 PREFER_CONTAINER = [False]    # probes: always exercise the container member of a union
 
 
@@ -1925,6 +1938,8 @@ def hist_case(ctx, c: Case):
     ctx.hist("top_kind", c.top[0])
     ctx.hist("n_classes", str(len(c.sch.classes)))
     ctx.hist("in_coq_grammar", str(c.sch.model))
+    if ":= " in c.value_src:
+        ctx.hist("input_aliasing", c.side)
     for k in ("final", "annotated", "newtype", "alias", "tvbound", "readonly", "tdreq", "tdnotreq"):
         if f"w:{k}" in getattr(c, "src_types", ""):
             ctx.hist("wrappers", f"{c.side}:{k}")
